@@ -25,7 +25,9 @@ ASSUMPTIONS = ["'terminates' is decided as bounded progress in deterministic log
 SOFT_S = {"quick": 18, "thorough": 420}
 HARD_S = {"quick": 900, "thorough": 7200}
 
-HOSTILE_TZIDS = ["Europe", "America/Argentina", "America", ".", "..", "../../etc/passwd", "/etc/passwd", "x" * 300, "Europe/" + "y" * 250, "a\x00b", "", " ",
+HOSTILE_TZIDS = ["\u00e4" * 200, "\u20ac" * 100, "x" * 255, "x" * 256, "Europe/" + "\u00e4" * 130, "\U0001F600" * 64, "a/" * 2100, "Europe/" + "y" * 255, "\u00e4" * 127 + "x", "\u00e4" * 128,
+                 # (file-name limits count octets, not characters: ids of at most 255 characters and more than 255 octets, the 4096-octet path limit)
+                 "Europe", "America/Argentina", "America", ".", "..", "../../etc/passwd", "/etc/passwd", "x" * 300, "Europe/" + "y" * 250, "a\x00b", "", " ",
                  "W. Europe Standard Time", "Eastern Standard Time", "posix/Europe/Berlin", "right/UTC", "Etc", "tzdata.zi", "zone.tab", "Europe/Berlin/", "//", "/",
                  "Europe//Berlin", "europe/berlin", "UTC", "utc", "Z", "GMT+0", "Etc/GMT+14", "localtime", "Factory", "posixrules", "+VERSION", "Europe\\Berlin",
                  "Europe/Berlin\\", "%", "é", "\U0001F600", "CON", "nul", "America/Indiana", "Asia/Kolkata;X=1", "\"quoted\"", "a,b", "leapseconds", "iso3166.tab",
